@@ -368,6 +368,14 @@ ssize_t __wrap_send(int fd, const void *buf, size_t len, int flags) {
     return -1;
   };
   if (s->out_failed) return fail(s->out_err);
+  // consistency with poll: once the kernel reports POLLHUP / POLLERR for this socket (an EOF / error item
+  // flagged `hup` has arrived), writing cannot merely "would block" for ever -- it fails hard
+  if (!s->in.empty() && (s->in_end || s->in_at <= k.now) && s->sent.size() >= s->in_hold_sent && s->in.front().hup &&
+      (s->in.front().t == IN_EOF || s->in.front().t == IN_ERR)) {
+    s->out_failed = true;
+    s->out_err = s->in.front().t == IN_ERR ? s->in.front().err : EPIPE;
+    return fail(s->out_err);
+  }
   while (!s->out.empty() && s->out.front().t == OUT_BLOCK) {
     if (s->out_at > k.now) {
       errno = EAGAIN;
